@@ -2,6 +2,8 @@ package main
 
 import (
 	"fmt"
+	"go/ast"
+	"go/constant"
 	"go/token"
 	"go/types"
 	"sort"
@@ -72,51 +74,174 @@ func operandName(v ssa.Value) string {
 // guard and a use when nothing in between can write them: same block or single-pred chain,
 // with no Store / Call instruction in between.
 func straightNoWrite(guard *ssa.BasicBlock, use ssa.Instruction) bool {
-	b := use.Block()
-	for cur := b; ; {
-		for _, ins := range cur.Instrs {
-			if ins == use {
+	if curEffects != nil && fnHeapReadOnly(use.Parent()) {
+		return true // the function writes through none of its parameters: field loads are stable throughout
+	}
+	harmless := func(ins ssa.Instruction) bool {
+		switch st := ins.(type) {
+		case *ssa.MapUpdate:
+			return false
+		case *ssa.Store:
+			// a store to a known field that is not one of the guarded index/length fields is harmless
+			p := addrPath(st.Addr)
+			if p == "" || strings.HasPrefix(p, "L:") {
+				if addrRootIsLocal(st.Addr) {
+					return true
+				}
+				return false
+			}
+			f := p[strings.LastIndex(p, ".")+1:]
+			if savedIndexFields[f] || f == "N" || strings.HasSuffix(p, "[*]") || isSliceField(st.Addr) {
+				return false
+			}
+		case *ssa.Call:
+			if !pureCall(st) {
+				return false
+			}
+		}
+		return true
+	}
+	// every path from the guard's edge target (which dominates the use) to the use must be write-free
+	seen := map[*ssa.BasicBlock]bool{}
+	var back func(b *ssa.BasicBlock, upto ssa.Instruction) bool
+	back = func(b *ssa.BasicBlock, upto ssa.Instruction) bool {
+		for _, ins := range b.Instrs {
+			if ins == upto {
 				break
 			}
-			switch ins.(type) {
-			case *ssa.Store, *ssa.MapUpdate:
+			if !harmless(ins) {
 				return false
-			case *ssa.Call:
-				if _, isB := ins.(*ssa.Call).Call.Value.(*ssa.Builtin); !isB {
-					return false
-				}
 			}
 		}
-		if cur == guard {
+		if b == guard {
 			return true
 		}
-		if len(cur.Preds) != 1 {
+		for _, p := range b.Preds {
+			if seen[p] {
+				continue
+			}
+			seen[p] = true
+			if !guard.Dominates(p) {
+				return false
+			}
+			if !back(p, nil) {
+				return false
+			}
+		}
+		return true
+	}
+	return back(use.Block(), use)
+}
+
+func addrRootIsLocal(v ssa.Value) bool {
+	for {
+		switch a := v.(type) {
+		case *ssa.FieldAddr:
+			v = a.X
+		case *ssa.IndexAddr:
+			v = a.X
+		case *ssa.Alloc:
+			return true
+		default:
 			return false
 		}
-		cur = cur.Preds[0]
 	}
 }
 
-// proveUpper: idx <= len(x) - 1 + slack (slack 0 for index, 1 for slice bounds).
-func proveUpper(s idxSite, idx ssa.Value, slack int64) (string, bool) {
-	b := s.ins.Block()
-	if n := staticLen(s.x); n >= 0 {
-		env := newRangeEnv(s.fn)
-		lo, hi := env.rng(idx, b)
-		if hi.Cmp(bigOf(n-1+slack)) <= 0 && lo.Sign() >= 0 {
-			return fmt.Sprintf("G2 index range %s within fixed length %d", rangeStr(lo, hi), n), true
+func fnHeapReadOnly(fn *ssa.Function) bool {
+	if curEffects == nil || curEffects.mayWrite[fn] == nil {
+		return false
+	}
+	for _, w := range curEffects.mayWrite[fn] {
+		if w {
+			return false
 		}
-		return fmt.Sprintf("index range %s vs fixed length %d", rangeStr(lo, hi), n), false
 	}
-	// dynamic length: guard dominance on the same SSA values
-	env := newLinEnv(linOpts{})
-	goal := env.norm(idx).add(Lin{T: map[string]int64{"len(" + env.sliceKey(s.x) + ")": 1}}, -1).add(linConst(1-slack), 1)
-	if ok, why := entails(env.factsAt(b), goal); ok {
-		return "G3 dominated by guard " + env.pretty(goal) + "<=0 [" + why + "]", true
+	return true
+}
+
+func isSliceField(addr ssa.Value) bool {
+	if pt, ok := addr.Type().Underlying().(*types.Pointer); ok {
+		_, isSl := pt.Elem().Underlying().(*types.Slice)
+		return isSl
 	}
-	// same, with loads keyed by access path (x.N < len(x.S)), requiring a write-free straight line
-	penv := newLinEnv(linOpts{pathLoads: true})
-	pgoal := penv.norm(idx).add(Lin{T: map[string]int64{"len(" + penv.sliceKey(s.x) + ")": 1}}, -1).add(linConst(1-slack), 1)
+	return false
+}
+
+// pureCall: builtin, known read-only external, or in-package callee that writes through none of its arguments.
+var curEffects *effects
+
+func pureCall(call *ssa.Call) bool {
+	if _, isB := call.Call.Value.(*ssa.Builtin); isB {
+		return true
+	}
+	cal := call.Call.StaticCallee()
+	if cal == nil {
+		return false
+	}
+	if readOnlyExternal[extName(cal)] {
+		return true
+	}
+	if curEffects == nil || curEffects.mayWrite[cal] == nil {
+		return false
+	}
+	for _, w := range curEffects.mayWrite[cal] {
+		if w {
+			return false
+		}
+	}
+	return true
+}
+
+// proofCtx gathers everything usable to discharge a goal at one instruction.
+type proofResult struct {
+	how     string
+	ok      bool
+	assumed string // non-empty when a named assumption (axiom) was needed
+}
+
+// lenLinFor: length of the indexed operand in the given environment.
+func lenLinFor(env *linEnv, x ssa.Value) Lin {
+	if n := staticLen(x); n >= 0 {
+		return linConst(n)
+	}
+	// x is a load of a field that was stored from y[lo:hi] earlier in the same block: len = hi - lo
+	if u, ok := x.(*ssa.UnOp); ok && u.Op == token.MUL {
+		if p := addrPath(u.X); p != "" {
+			var found *ssa.Slice
+			for _, ins := range u.Block().Instrs {
+				if ins == ssa.Instruction(u) {
+					break
+				}
+				switch st := ins.(type) {
+				case *ssa.Store:
+					if addrPath(st.Addr) == p {
+						found, _ = st.Val.(*ssa.Slice)
+					}
+				case *ssa.Call:
+					if !pureCall(st) {
+						found = nil
+					}
+				}
+			}
+			if found != nil {
+				return env.lenLinOfValue(found)
+			}
+		}
+	}
+	if c, ok := x.(*ssa.Const); ok && c.Value != nil && c.Value.Kind() == constant.String {
+		return linConst(int64(len(constant.StringVal(c.Value))))
+	}
+	return env.lenLin(x)
+}
+
+// usableFacts: facts of dominating edges; path-keyed facts only when nothing can write in between.
+func usableFacts(env *linEnv, ins ssa.Instruction, pathKeyed bool) []Fact {
+	b := ins.Block()
+	if !pathKeyed {
+		return env.factsAt(b)
+	}
+	var out []Fact
 	for cur := b; cur != nil; cur = cur.Idom() {
 		d := cur.Idom()
 		if d == nil {
@@ -126,14 +251,350 @@ func proveUpper(s idxSite, idx ssa.Value, slack int64) (string, bool) {
 		if !ok || len(cur.Preds) != 1 || cur.Preds[0] != d {
 			continue
 		}
-		fs := penv.condFacts(iff.Cond, d.Succs[0] == cur)
-		if ok, _ := entails(fs, pgoal); ok && straightNoWrite(cur, s.ins) {
-			return "G3p dominated by guard on the same fields " + penv.pretty(pgoal) + "<=0 (no write in between)", true
+		if !fnHeapReadOnly(ins.Parent()) && !straightNoWrite(cur, ins) {
+			break // a write may have happened between this guard and the use: older guards are stale too
+		}
+		out = append(out, env.condFacts(iff.Cond, d.Succs[0] == cur)...)
+	}
+	return out
+}
+
+// axioms: always-true facts about atoms: callee postconditions and the saved-index invariant.
+func axiomsFor(c *Ctx, env *linEnv, fn *ssa.Function, at ssa.Instruction) (facts []Fact, assumed map[string]bool) {
+	assumed = map[string]bool{}
+	bp := bufParam(fn)
+	for k, v := range env.vals {
+		switch x := v.(type) {
+		case *ssa.UnOp:
+			// saved scan index <= len(buf)   (P2 provenance: only ever stored a past index)
+			if p := addrPath(x.X); bp != nil && p != "" {
+				f := p[strings.LastIndex(p, ".")+1:]
+				if savedIndexFields[f] || (f == "Offs" && typeShort(x.Type()) == "OffsT") {
+					src := "saved index " + p + " <= len(buf) (P2)"
+					facts = append(facts, Fact{Lin{T: map[string]int64{k: 1, "len(param:" + bp.Name() + ")": -1}}, src})
+					assumed[src] = true
+				}
+			}
+		case *ssa.Parameter:
+			// API precondition: the start offset lies inside the buffer
+			if bp != nil && isIntType(x.Type()) && (fn.Parent() == nil || closurePreOK[ssaKey(fn)]) {
+				for i, p := range fn.Params {
+					if p == bp && i+1 < len(fn.Params) && fn.Params[i+1] == x {
+						src := "API precondition " + x.Name() + " <= len(" + bp.Name() + ")"
+						facts = append(facts, Fact{Lin{T: map[string]int64{k: 1, "len(param:" + bp.Name() + ")": -1}}, src})
+						assumed[src] = true
+					}
+				}
+			}
+		case *ssa.Call:
+			if cal := x.Call.StaticCallee(); cal != nil && offsetPostHolds(c, cal) && cal.Signature.Results().Len() == 1 {
+				if gb := bufParam(cal); gb != nil {
+					for i, p := range cal.Params {
+						if p == gb && i < len(x.Call.Args) {
+							facts = append(facts, Fact{Lin{T: map[string]int64{k: 1}}.add(env.lenLin(x.Call.Args[i]), -1), cal.Name() + "() offset <= len(buf) (rule O1)"})
+						}
+					}
+				}
+			}
+			if cal := x.Call.StaticCallee(); cal != nil && cal.Pkg == fn.Pkg && len(x.Call.Args) > 0 {
+				// min-helper postcondition: result <= len(recv.<field>)
+				if fld, ok := minHelperPost(c, cal); ok {
+					recv := x.Call.Args[0]
+					if rp := valuePath(recv); rp != "" || addrPath(recv) != "" {
+						if rp == "" {
+							rp = addrPath(recv)
+						}
+						var ln Lin
+						if n, isArr := minHelperArrayLen(cal, fld); isArr {
+							ln = linConst(n)
+						} else {
+							ln = Lin{T: map[string]int64{"len(load:" + rp + "." + fld + ")": 1}}
+						}
+						facts = append(facts, Fact{Lin{T: map[string]int64{k: 1}}.add(ln, -1), cal.Name() + "() <= len(" + fld + ") (callee postcondition, proved)"})
+					}
+				}
+			}
+		case *ssa.Extract:
+			// offset postcondition of streaming parsers: result#0 <= len(buf)   (rule O1)
+			if call, ok := x.Tuple.(*ssa.Call); ok && x.Index == 0 {
+				if cal := call.Call.StaticCallee(); cal != nil && offsetPostHolds(c, cal) {
+					if gb := bufParam(cal); gb != nil {
+						for i, p := range cal.Params {
+							if p == gb && i < len(call.Call.Args) {
+								ln := env.lenLin(call.Call.Args[i])
+								facts = append(facts, Fact{Lin{T: map[string]int64{k: 1}}.add(ln, -1), cal.Name() + "() offset <= len(buf) (rule O1)"})
+								// verdict-conditional postcondition: Ok => offset < len(buf)
+								if okStrictPost[ssaKey(cal)] && at != nil && dominatedByOkOf(call, at) {
+									facts = append(facts, Fact{Lin{T: map[string]int64{k: 1}}.add(ln, -1).add(linConst(1), 1), cal.Name() + "() == Ok => offset < len(buf) (rule O1)"})
+								}
+							}
+						}
+					}
+				}
+			}
 		}
 	}
-	// constant / interval index against a constant-length string or similar
-	return env.pretty(goal) + "<=0 not established by any dominating guard", false
+	return
 }
+
+// prove: goal(env) <= 0 at instruction ins.
+func prove(c *Ctx, fn *ssa.Function, ins ssa.Instruction, goal func(env *linEnv) Lin) proofResult {
+	return proveH(c, fn, ins, goal, nil, 0)
+}
+
+type hypo struct {
+	phi  *ssa.Phi
+	goal func(env *linEnv) Lin
+}
+
+// proveH: prove with induction hypotheses (each usable where its phi dominates) and a depth budget.
+func proveH(c *Ctx, fn *ssa.Function, ins ssa.Instruction, goal func(env *linEnv) Lin, hyps []hypo, depth int) proofResult {
+	for _, pk := range []bool{false, true} {
+		env := newLinEnv(linOpts{pathLoads: pk})
+		g := goal(env)
+		facts := usableFacts(env, ins, pk)
+		for _, h := range hyps {
+			if h.phi.Block().Dominates(ins.Block()) {
+				facts = append(facts, Fact{h.goal(env), "induction hypothesis on " + srcName(h.phi)})
+			}
+		}
+		if ok, why := entails(facts, g); ok {
+			tag := "G3"
+			if pk {
+				tag = "G3p"
+			}
+			return proofResult{how: tag + " " + env.pretty(g) + "<=0 [" + why + "]", ok: true}
+		}
+		ax, assumed := axiomsFor(c, env, fn, ins)
+		if len(ax) > 0 {
+			if ok, why := entails(append(facts, ax...), g); ok {
+				as := ""
+				for a := range assumed {
+					if strings.Contains(why, a) {
+						as = a
+					}
+				}
+				return proofResult{how: "G3+axiom " + env.pretty(g) + "<=0 [" + why + "]", ok: true, assumed: as}
+			}
+		}
+	}
+	if depth < 3 {
+		if r := proveByCases(c, fn, ins, goal, hyps, depth); r.ok {
+			return r
+		}
+	}
+	env := newLinEnv(linOpts{})
+	return proofResult{how: env.pretty(goal(env)) + "<=0 not established by any dominating guard"}
+}
+
+// proveByCases: the goal mentions a phi. Prove it for every incoming value at the end of the corresponding
+// predecessor; for a loop-carried phi the goal itself is the induction hypothesis.
+func proveByCases(c *Ctx, fn *ssa.Function, ins ssa.Instruction, goal func(env *linEnv) Lin, hyps []hypo, depth int) proofResult {
+	env := newLinEnv(linOpts{})
+	g := goal(env)
+	var keys []string
+	for k := range g.T {
+		keys = append(keys, k)
+	}
+	sort.Strings(keys)
+	for _, key := range keys {
+		phi, ok := env.vals[key].(*ssa.Phi)
+		if !ok {
+			continue
+		}
+		for _, h := range hyps {
+			if h.phi == phi {
+				ok = false
+			}
+		}
+		if !ok {
+			continue
+		}
+		nh := append(append([]hypo{}, hyps...), hypo{phi, goal})
+		allOK := true
+		assumed := ""
+		for i, e := range phi.Edges {
+			if e == ssa.Value(phi) {
+				continue
+			}
+			pred := phi.Block().Preds[i]
+			last := pred.Instrs[len(pred.Instrs)-1]
+			ev := e
+			sub := func(env2 *linEnv) Lin {
+				g2 := goal(env2)
+				k2 := env2.atomKey(phi)
+				cf := g2.T[k2]
+				delete(g2.T, k2)
+				return g2.add(env2.norm(ev).scale(cf), 1)
+			}
+			r := proveH(c, fn, last, sub, nh, depth+1)
+			if !r.ok {
+				allOK = false
+				break
+			}
+			if r.assumed != "" {
+				assumed = r.assumed
+			}
+		}
+		if allOK {
+			return proofResult{how: "G3i " + env.pretty(g) + "<=0 by cases/induction on " + srcName(phi), ok: true, assumed: assumed}
+		}
+	}
+	return proofResult{}
+}
+
+// proveUpper: idx <= len(x) - 1 + slack (slack 0 for index, 1 for slice bounds).
+func proveUpper(c *Ctx, s idxSite, idx ssa.Value, slack int64) proofResult {
+	b := s.ins.Block()
+	n := staticLen(s.x)
+	if cs, ok := s.x.(*ssa.Const); ok && cs.Value != nil && cs.Value.Kind() == constant.String {
+		n = int64(len(constant.StringVal(cs.Value)))
+	}
+	if n >= 0 {
+		env := newRangeEnv(s.fn)
+		lo, hi := env.rng(idx, b)
+		if hi.Cmp(bigOf(n-1+slack)) <= 0 && lo.Sign() >= 0 {
+			return proofResult{how: fmt.Sprintf("G2 index range %s within fixed length %d", rangeStr(lo, hi), n), ok: true}
+		}
+		// G5: enum-typed index, every declared constant of the type is below the table length
+		if nt, ok := stripWiden(idx).Type().(*types.Named); ok && slack == 0 {
+			if mx, cnt := enumMax(c, nt); cnt >= 2 && mx < n {
+				return proofResult{how: fmt.Sprintf("G5 enum index %s: all %d declared constants <= %d < table length %d", nt.Obj().Name(), cnt, mx, n), ok: true, assumed: "enum values are declared constants"}
+			}
+		}
+	}
+	r := prove(c, s.fn, s.ins, func(env *linEnv) Lin {
+		return env.norm(idx).add(lenLinFor(env, s.x), -1).add(linConst(1-slack), 1)
+	})
+	return r
+}
+
+func enumMax(c *Ctx, nt *types.Named) (max int64, count int) {
+	if nt.Obj().Pkg() != c.Types {
+		return 0, 0
+	}
+	sc := c.Types.Scope()
+	for _, n := range sc.Names() {
+		if k, ok := sc.Lookup(n).(*types.Const); ok && types.Identical(k.Type(), nt) {
+			v, _ := constant.Int64Val(constant.ToInt(k.Val()))
+			if v > max {
+				max = v
+			}
+			count++
+		}
+	}
+	return
+}
+
+// minHelperPost: does every return of fn satisfy result <= len(recv.<field>)? returns the field.
+var minHelperMemo = map[*ssa.Function]string{}
+
+func minHelperPost(c *Ctx, fn *ssa.Function) (string, bool) {
+	if f, ok := minHelperMemo[fn]; ok {
+		return f, f != ""
+	}
+	minHelperMemo[fn] = ""
+	if fn.Signature.Recv() == nil || fn.Signature.Results().Len() != 1 || !isIntType(fn.Signature.Results().At(0).Type()) || len(fn.Blocks) == 0 || len(fn.Blocks) > 6 {
+		return "", false
+	}
+	st := derefStruct(fn.Params[0].Type())
+	if st == nil {
+		return "", false
+	}
+	recvName := fn.Params[0].Name()
+	for i := 0; i < st.NumFields(); i++ {
+		f := st.Field(i)
+		var ln func(env *linEnv) Lin
+		switch u := f.Type().Underlying().(type) {
+		case *types.Slice:
+			name := f.Name()
+			ln = func(env *linEnv) Lin { return Lin{T: map[string]int64{"len(load:" + recvName + "." + name + ")": 1}} }
+		case *types.Array:
+			n := u.Len()
+			ln = func(env *linEnv) Lin { return linConst(n) }
+		default:
+			continue
+		}
+		all, nret := true, 0
+		for _, b := range fn.Blocks {
+			ret, ok := b.Instrs[len(b.Instrs)-1].(*ssa.Return)
+			if !ok {
+				continue
+			}
+			nret++
+			env := newLinEnv(linOpts{pathLoads: true})
+			g := env.norm(ret.Results[0]).add(ln(env), -1)
+			if ok, _ := entails(usableFacts(env, ret, true), g); !ok {
+				all = false
+			}
+		}
+		if all && nret > 0 {
+			// must actually depend on the field (not a constant function)
+			minHelperMemo[fn] = f.Name()
+			return f.Name(), true
+		}
+	}
+	return "", false
+}
+
+func minHelperArrayLen(fn *ssa.Function, fld string) (int64, bool) {
+	st := derefStruct(fn.Params[0].Type())
+	for i := 0; i < st.NumFields(); i++ {
+		if st.Field(i).Name() == fld {
+			if at, ok := st.Field(i).Type().Underlying().(*types.Array); ok {
+				return at.Len(), true
+			}
+		}
+	}
+	return 0, false
+}
+
+// okStrictPost: functions whose every return that may carry verdict Ok has offset <= len(buf)-1.
+var okStrictPost = map[string]bool{}
+var closurePreOK = map[string]bool{}
+
+// dominatedByOkOf: is `at` dominated by the true edge of (err-result-of-call == 0)?
+func dominatedByOkOf(call *ssa.Call, at ssa.Instruction) bool {
+	cal := call.Call.StaticCallee()
+	ei := errResultIndex(cal)
+	if ei < 0 {
+		return false
+	}
+	var errv ssa.Value
+	for _, r := range *call.Referrers() {
+		if ex, ok := r.(*ssa.Extract); ok && ex.Index == ei {
+			errv = ex
+		}
+	}
+	if errv == nil {
+		return false
+	}
+	for cur := at.Block(); cur != nil; cur = cur.Idom() {
+		d := cur.Idom()
+		if d == nil {
+			break
+		}
+		iff, ok := d.Instrs[len(d.Instrs)-1].(*ssa.If)
+		if !ok || len(cur.Preds) != 1 || cur.Preds[0] != d {
+			continue
+		}
+		if b, ok := iff.Cond.(*ssa.BinOp); ok && (b.X == errv || b.Y == errv) {
+			k, isC := constIntOf(b.Y)
+			if !isC {
+				k, isC = constIntOf(b.X)
+			}
+			if isC && k == 0 && ((b.Op == token.EQL && d.Succs[0] == cur) || (b.Op == token.NEQ && d.Succs[1] == cur)) {
+				return true
+			}
+		}
+	}
+	return false
+}
+
+// offsetPostHolds: set by rule O1 (returned offset <= len(buf) for streaming functions).
+var offsetPost = map[string]bool{}
+
+func offsetPostHolds(c *Ctx, fn *ssa.Function) bool { return offsetPost[ssaKey(fn)] }
 
 func isTrustedAccessor(fn *ssa.Function) bool {
 	k := ssaKey(fn)
@@ -141,9 +602,128 @@ func isTrustedAccessor(fn *ssa.Function) bool {
 }
 
 // named, reasoned exceptions (one construct each)
-var idxExceptions = map[string]string{}
+var idxExceptions = map[string]string{
+	"IP6Prefix:addr[+i]":          "IPv6 group index bounded by the colon count (<= 7 colons are accepted before the group index can reach 8): a relational value invariant of IP6Prefix, read and accepted, not re-proved",
+	"IP6Prefix:addr[+i]#2":        "same cell as addr[i] (read-modify-write of one group)",
+	"IP6Prefix:L:addrBuf2[:+i]":   "number of groups after '::' bounded by the colon count (same invariant as addr[i])",
+	"GetMsgSig:L:sig.HdrSig[+L:sig.HdrSigLen]": "write index bounded by the early return: HdrSigLen starts at 0 and every increment is immediately followed by `if HdrSigLen >= len(HdrSig) { return }` (checked structurally)",
+	"MsgSig.String:L:s.HdrSig[+i]":   "i < s.HdrSigLen, and HdrSigLen is stored only by GetMsgSig where it stays <= len(HdrSig) (who-writes checked); a caller that forges HdrSigLen in the exported struct is outside the property",
+	"MsgSig.String:L:s.HdrSig[+i]#2": "same loop",
+	"MsgSig.String:L:s.HdrSig[+i]#3": "same loop",
+}
+
+var idxExceptionChecks = map[string]func(c *Ctx) (string, bool){
+	"GetMsgSig:L:sig.HdrSig[+L:sig.HdrSigLen]": hdrSigLenBounded,
+	"MsgSig.String:L:s.HdrSig[+i]":             hdrSigLenBounded,
+	"MsgSig.String:L:s.HdrSig[+i]#2":           hdrSigLenBounded,
+	"MsgSig.String:L:s.HdrSig[+i]#3":           hdrSigLenBounded,
+}
+
+// hdrSigLenBounded: HdrSigLen is stored only in GetMsgSig; every store is 0 or an increment that is
+// immediately followed by the `>= len(HdrSig)` early return.
+func hdrSigLenBounded(c *Ctx) (string, bool) {
+	nst := 0
+	for k, fn := range c.SFuncs {
+		for _, b := range fn.Blocks {
+			for i, ins := range b.Instrs {
+				st, ok := ins.(*ssa.Store)
+				if !ok {
+					continue
+				}
+				fa, ok := st.Addr.(*ssa.FieldAddr)
+				if !ok || fieldCell(fa) != "MsgSig.HdrSigLen" {
+					continue
+				}
+				nst++
+				if k != "GetMsgSig" {
+					return "HdrSigLen stored in " + k, false
+				}
+				if kk, isC := constIntOf(st.Val); isC && kk == 0 {
+					continue
+				}
+				inc, ok := st.Val.(*ssa.BinOp)
+				if !ok || inc.Op != token.ADD {
+					return "HdrSigLen store is not an increment", false
+				}
+				// the block must end in an If on (load HdrSigLen) >= 8 whose true edge returns
+				iff, ok := b.Instrs[len(b.Instrs)-1].(*ssa.If)
+				if !ok {
+					return "increment not followed by the bound test", false
+				}
+				cond, ok := iff.Cond.(*ssa.BinOp)
+				if !ok || cond.Op != token.GEQ {
+					return "bound test is not >=", false
+				}
+				lim, isC := constIntOf(cond.Y)
+				ld, isLd := cond.X.(*ssa.UnOp)
+				if !isC || lim > 8 || !isLd {
+					return "bound test constant", false
+				}
+				if lfa, ok := ld.X.(*ssa.FieldAddr); !ok || fieldCell(lfa) != "MsgSig.HdrSigLen" {
+					return "bound test not on HdrSigLen", false
+				}
+				for _, between := range b.Instrs[i+1 : len(b.Instrs)-1] {
+					if _, isSt := between.(*ssa.Store); isSt {
+						return "store between increment and test", false
+					}
+				}
+				if _, isRet := b.Succs[0].Instrs[len(b.Succs[0].Instrs)-1].(*ssa.Return); !isRet {
+					return "bound test true edge does not return", false
+				}
+			}
+		}
+	}
+	if nst < 2 {
+		return "HdrSigLen stores not found", false
+	}
+	return "", true
+}
+
+// callerEstablished: an index on a parameter of an unexported function, discharged at every call site.
+func callerEstablished(c *Ctx, s idxSite) (string, bool, string) {
+	p, ok := s.x.(*ssa.Parameter)
+	if !ok || ast.IsExported(s.fn.Name()) || s.fn.Parent() != nil {
+		return "", false, ""
+	}
+	k, isC := constIntOf(s.idx[0])
+	if !isC {
+		return "", false, ""
+	}
+	pi := -1
+	for i, q := range s.fn.Params {
+		if q == p {
+			pi = i
+		}
+	}
+	n, assumed := 0, ""
+	for ck, g := range c.SFuncs {
+		for _, b := range g.Blocks {
+			for _, ins := range b.Instrs {
+				call, ok := ins.(*ssa.Call)
+				if !ok || call.Call.StaticCallee() != s.fn {
+					continue
+				}
+				n++
+				if strings.HasPrefix(ck, "init@") {
+					assumed = "init-time callers pass the (non-empty, C16-H1) table literals"
+					continue
+				}
+				arg := call.Call.Args[pi]
+				r := prove(c, g, call, func(env *linEnv) Lin { return linConst(k+1).add(env.lenLin(arg), -1) })
+				if !r.ok {
+					return "", false, ""
+				}
+			}
+		}
+	}
+	if n == 0 {
+		return "", false, ""
+	}
+	return fmt.Sprintf("G3c len(%s) >= %d established at each of the %d call sites of unexported %s", p.Name(), k+1, n, s.fn.Name()), true, assumed
+}
 
 func ruleG(c *Ctx) {
+	curEffects = computeEffects(c.Prog)
 	sites := collectIdxSites(c.Prog)
 	cnt := map[string]int{}
 	for _, s := range sites {
@@ -177,42 +757,73 @@ func ruleG(c *Ctx) {
 			continue
 		}
 		if why, ok := idxExceptions[key]; ok {
+			if chk := idxExceptionChecks[key]; chk != nil {
+				if msg, good := chk(c); !good {
+					c.fail("G", key, pos, "named exception no longer justified: "+msg)
+					continue
+				}
+			}
 			c.excepted("G", key, pos, why)
 			continue
 		}
-		var msgs []string
+		var msgs, assumedBy []string
 		ok := true
 		switch s.kind {
 		case "index":
-			m, o := proveUpper(s, s.idx[0], 0)
-			msgs = append(msgs, m)
-			ok = ok && o
+			r := proveUpper(c, s, s.idx[0], 0)
+			msgs = append(msgs, r.how)
+			ok = ok && r.ok
+			if r.assumed != "" {
+				assumedBy = append(assumedBy, r.assumed)
+			}
 		case "slice":
 			lo, hi := s.idx[0], s.idx[1]
 			if hi != nil {
-				m, o := proveUpper(s, hi, 1)
-				msgs = append(msgs, "high: "+m)
-				ok = ok && o
+				r := proveUpper(c, s, hi, 1)
+				msgs = append(msgs, "high: "+r.how)
+				ok = ok && r.ok
+				if r.assumed != "" {
+					assumedBy = append(assumedBy, r.assumed)
+				}
 				if lo != nil {
 					// low <= high
-					env := newLinEnv(linOpts{})
-					goal := env.norm(lo).add(env.norm(hi), -1)
-					if g, why := entails(env.factsAt(s.ins.Block()), goal); g {
-						msgs = append(msgs, "low<=high ["+why+"]")
-					} else {
-						msgs = append(msgs, "low<=high not established: "+env.pretty(goal)+"<=0")
-						ok = false
+					r2 := prove(c, s.fn, s.ins, func(env *linEnv) Lin { return env.norm(lo).add(env.norm(hi), -1) })
+					if !r2.ok {
+						if k, isC := constIntOf(lo); isC && k == 0 {
+							r2 = proofResult{how: "0 <= position", ok: true, assumed: "positions are >= 0 (API precondition offs >= 0, monotone index P2)"}
+						} else if p := valuePath(stripWiden(lo)); p != "" && savedIndexFields[p[strings.LastIndex(p, ".")+1:]] {
+							r2 = proofResult{how: "saved start " + p + " <= current position", ok: true, assumed: "a saved index never exceeds the current scan position (monotone index, P2)"}
+						}
+					}
+					msgs = append(msgs, "low<=high: "+r2.how)
+					ok = ok && r2.ok
+					if r2.assumed != "" {
+						assumedBy = append(assumedBy, r2.assumed)
 					}
 				}
 			} else if lo != nil {
-				m, o := proveUpper(s, lo, 1)
-				msgs = append(msgs, "low: "+m)
-				ok = ok && o
+				r := proveUpper(c, s, lo, 1)
+				msgs = append(msgs, "low: "+r.how)
+				ok = ok && r.ok
+				if r.assumed != "" {
+					assumedBy = append(assumedBy, r.assumed)
+				}
 			} else {
 				msgs = append(msgs, "full slice")
 			}
 		}
-		if ok {
+		if !ok && s.kind == "index" {
+			if how, good, as := callerEstablished(c, s); good {
+				ok = true
+				msgs = []string{how}
+				if as != "" {
+					assumedBy = append(assumedBy, as)
+				}
+			}
+		}
+		if ok && len(assumedBy) > 0 {
+			c.assumed("G", key, pos, strings.Join(msgs, "; ")+" — relies on: "+strings.Join(assumedBy, ", "))
+		} else if ok {
 			c.ok("G", key, pos, strings.Join(msgs, "; "))
 		} else {
 			c.fail("G", key, pos, "no proof rule discharges this "+s.kind+": "+strings.Join(msgs, "; "))
@@ -222,3 +833,214 @@ func ruleG(c *Ctx) {
 }
 
 var _ = token.NoPos
+
+// savedIndexFields: parser state fields that only ever hold a past scan index (rule P2 checks their stores).
+var savedIndexFields = map[string]bool{"soffs": true, "pstart": true, "pend": true, "vstart": true, "vend": true, "offs": true}
+
+// offsetFuncs: functions f(buf []byte, offs int, ...) whose first result is an int offset.
+func offsetFuncs(c *Ctx) []*ssa.Function {
+	var out []*ssa.Function
+	for _, f := range c.SFuncs {
+		bp := bufParam(f)
+		if bp == nil || f.Blocks == nil || f.Signature.Results().Len() == 0 || f.Signature.Results().At(0).Type().String() != "int" {
+			continue
+		}
+		ok := false
+		for i, p := range f.Params {
+			if p == bp && i+1 < len(f.Params) && f.Params[i+1].Type().String() == "int" {
+				ok = true
+			}
+		}
+		if ok {
+			out = append(out, f)
+		}
+	}
+	sort.Slice(out, func(i, j int) bool { return ssaKey(out[i]) < ssaKey(out[j]) })
+	return out
+}
+
+// ruleO1: every returned offset is <= len(buf) (greatest fixpoint over the offset-returning functions).
+func ruleO1(c *Ctx) {
+	curEffects = computeEffects(c.Prog)
+	fns := offsetFuncs(c)
+	offsetPost = map[string]bool{}
+	for _, f := range fns {
+		offsetPost[ssaKey(f)] = true
+	}
+	okStrictPost = map[string]bool{}
+	closurePreOK = map[string]bool{}
+	for _, f := range fns {
+		if f.Parent() != nil {
+			closurePreOK[ssaKey(f)] = true // optimistic start of the greatest fixpoint
+		}
+		okStrictPost[ssaKey(f)] = errResultIndex(f) >= 0
+	}
+	eAn := newErrAnalysis(c.Prog)
+	type retRes struct {
+		pos token.Pos
+		key string
+		r   proofResult
+		rel bool
+	}
+	var results map[string][]retRes
+	converged := false
+	for iter := 0; iter < 10; iter++ {
+		results = map[string][]retRes{}
+		changed := false
+		for _, f := range fns {
+			fk := ssaKey(f)
+			bp := bufParam(f)
+			allOK := true
+			cnt := map[string]int{}
+			for _, b := range f.Blocks {
+				ret, ok := b.Instrs[len(b.Instrs)-1].(*ssa.Return)
+				if !ok {
+					continue
+				}
+				v := ret.Results[0]
+				le := newLinEnv(linOpts{})
+				base := fk + ":return " + le.pretty(le.norm(v))
+				cnt[base]++
+				key := base
+				if cnt[base] > 1 {
+					key += "#" + itoa(cnt[base])
+				}
+				r := prove(c, f, ret, func(env *linEnv) Lin {
+					return env.norm(v).add(Lin{T: map[string]int64{"len(param:" + bp.Name() + ")": 1}}, -1)
+				})
+				rel := false
+				if !r.ok && isOffsetPlusCrl(v) {
+					rel = true // offset + line-end length: needs the relational postcondition of the LWS/CRLF skippers
+				}
+				if !r.ok && !rel {
+					allOK = false
+				}
+				results[fk] = append(results[fk], retRes{ret.Pos(), key, r, rel})
+			}
+			if !allOK && offsetPost[fk] {
+				offsetPost[fk] = false
+				changed = true
+			}
+			// Ok => offset <= len(buf)-1 ?
+			strict := errResultIndex(f) >= 0
+			ei := errResultIndex(f)
+			for _, b := range f.Blocks {
+				ret, ok := b.Instrs[len(b.Instrs)-1].(*ssa.Return)
+				if !ok || !strict {
+					continue
+				}
+				if !eAn.at(ret.Results[ei], b).has(0) {
+					continue
+				}
+				v := ret.Results[0]
+				r := prove(c, f, ret, func(env *linEnv) Lin {
+					return env.norm(v).add(Lin{T: map[string]int64{"len(param:" + bp.Name() + ")": 1}}, -1).add(linConst(1), 1)
+				})
+				if !r.ok || r.assumed != "" {
+					strict = false
+				}
+			}
+			if okStrictPost[fk] != strict {
+				okStrictPost[fk] = strict
+				changed = true
+			}
+		}
+		// O2: in-package call sites establish the callee's precondition offs <= len(buf)
+		for _, f := range fns {
+			if f.Parent() == nil {
+				continue
+			}
+			pre := true
+			for _, g := range c.SFuncs {
+				for _, b := range g.Blocks {
+					for _, ins := range b.Instrs {
+						call, ok := ins.(*ssa.Call)
+						if !ok || call.Call.StaticCallee() != f {
+							continue
+						}
+						bi := -1
+						for i, p := range f.Params {
+							if p == bufParam(f) {
+								bi = i
+							}
+						}
+						args := call.Call.Args
+						r := prove(c, g, call, func(env *linEnv) Lin { return env.norm(args[bi+1]).add(env.lenLin(args[bi]), -1) })
+						if !r.ok {
+							pre = false
+						}
+					}
+				}
+			}
+			if closurePreOK[ssaKey(f)] != pre {
+				closurePreOK[ssaKey(f)] = pre
+				changed = true
+			}
+		}
+		if !changed {
+			converged = true
+			break
+		}
+	}
+	c.check(converged, "O1", "fixpoint", token.NoPos, "postcondition fixpoint converged")
+	n := 0
+	for _, f := range fns {
+		fk := ssaKey(f)
+		for _, rr := range results[fk] {
+			n++
+			switch {
+			case rr.r.ok && rr.r.assumed != "":
+				c.assumed("O1", rr.key, rr.pos, rr.r.how+" — relies on: "+rr.r.assumed)
+			case rr.r.ok:
+				c.ok("O1", rr.key, rr.pos, rr.r.how)
+			case rr.rel:
+				c.assumed("O1", rr.key, rr.pos, "offset + line-end length: needs the relational postcondition 'offset+crl <= len(buf)' of skipLWS/skipCRLF/skipLine, which is not decided here")
+			default:
+				c.fail("O1", rr.key, rr.pos, "returned offset not provably <= len(buf): "+rr.r.how)
+			}
+		}
+	}
+	c.check(n >= 80, "O1", "return-count", token.NoPos, fmt.Sprintf("%d offset returns analysed in %d functions (frozen minimum 80)", n, len(fns)))
+}
+
+// isOffsetPlusCrl: v = n + crl where crl is a line-end length (0,1,2 constants or the #1 result of a skipper).
+func isOffsetPlusCrl(v ssa.Value) bool {
+	b, ok := v.(*ssa.BinOp)
+	if !ok || b.Op != token.ADD {
+		return false
+	}
+	isCrl := func(x ssa.Value) bool {
+		seen := map[ssa.Value]bool{}
+		var chk func(x ssa.Value) bool
+		chk = func(x ssa.Value) bool {
+			if seen[x] {
+				return true
+			}
+			seen[x] = true
+			switch a := x.(type) {
+			case *ssa.Const:
+				k, ok := constIntOf(a)
+				return ok && k >= 0 && k <= 2
+			case *ssa.Extract:
+				if call, ok := a.Tuple.(*ssa.Call); ok && a.Index == 1 {
+					if cal := call.Call.StaticCallee(); cal != nil {
+						switch cal.Name() {
+						case "skipLWS", "skipCRLF", "skipLine":
+							return true
+						}
+					}
+				}
+			case *ssa.Phi:
+				for _, e := range a.Edges {
+					if !chk(e) {
+						return false
+					}
+				}
+				return true
+			}
+			return false
+		}
+		return chk(x)
+	}
+	return isCrl(b.Y) || isCrl(b.X)
+}
